@@ -54,8 +54,6 @@ Definition fc_c : jcfg := mkJ 2 5 10 1 0 (Some fc_cu) 0 1 0.
 Definition fc_l : list (block * pass) := map (fun n => (fo_b n, PBlocks [])) [8;9;10;11;12;13;14].
 Definition fc_w : world := mkW (hub_run 2 5 hub_init fc_l) (map fo_b [15;16]).
 
-From BV Require Import Spec.C07_Final_Spec.
-
 Lemma c07_final_cursor_refuted_proof : C07_final_cursor_refuted.
 Proof.
   exists fc_canon, fc_c, fc_w, [], 12, fc_canon, [], fc_cu, (fo_b 12).
@@ -75,10 +73,17 @@ Proof.
   split; [reflexivity|]. split; [reflexivity|]. split; [reflexivity|]. split; [reflexivity|]. split; [reflexivity|].
   split; [reflexivity|]. split; [vm_compute; tauto|]. split; [reflexivity|]. split; [reflexivity|].
   cbv zeta. split; [vm_compute; reflexivity|]. split; [vm_compute; reflexivity|].
-  eexists. split; [vm_compute; left; reflexivity | vm_compute; discriminate].
+  split; [eexists; split; [vm_compute; left; reflexivity | vm_compute; discriminate]|].
+  split; [vm_compute; reflexivity|].
+  assert (E : fst (stream_run fc_c fc_w [] 12 (filter (fun b => bnum b <? 12) fc_canon) []) = []) by (vm_compute; reflexivity).
+  rewrite E. constructor.
 Qed.
 
+(* a longer tail of arrivals: the memoryless filter delivers 11 12 13 14, the fixed one 13 14 *)
+Definition fc_w2 : world := mkW (hub_run 2 5 hub_init fc_l) (map fo_b [15;16;17;18]).
 Example c07_final_cursor_witness_run :
-  fo_show (stream_run fc_c fc_w [] 12 (filter (fun b => bnum b <? 12) fc_canon) [])
-  = ([(SIrr, 11); (SIrr, 12)], JNil).
-Proof. vm_compute. reflexivity. Qed.
+  fo_show (stream_run_nomem fc_c fc_w2 [] 12 (filter (fun b => bnum b <? 12) fc_canon) [])
+  = ([(SIrr, 11); (SIrr, 12); (SIrr, 13); (SIrr, 14)], JNil) /\
+  fo_show (stream_run fc_c fc_w2 [] 12 (filter (fun b => bnum b <? 12) fc_canon) [])
+  = ([(SIrr, 13); (SIrr, 14)], JNil).
+Proof. vm_compute. split; reflexivity. Qed.
